@@ -233,6 +233,24 @@ int ops_table(char **args, int na)
 		else printf("exit:%d\n", WEXITSTATUS(st));
 		return 0;
 	}
+	if (!strcmp(op, "excl.probe") && na >= 2) {
+		/* mtbl_writer_init on a path that already exists (or not); the pre-existing node must stay untouched */
+		const char *kind = kv(args + 1, na - 1, "kind"); if (!kind) return -1;
+		uint8_t *c = NULL; size_t cl = 0; const char *ch = kv(args + 1, na - 1, "content");
+		if (ch && unhex(ch, &c, &cl)) return -1;
+		char path[320], tgt[340]; snprintf(path, sizeof path, "%s/excl.mtbl", vf_tmpdir); snprintf(tgt, sizeof tgt, "%s/excl-target", vf_tmpdir);
+		unlink(path); unlink(tgt);
+		if (!strcmp(kind, "regular")) { FILE *f = fopen(path, "wb"); if (!f) return -1; fwrite(c, 1, cl, f); fclose(f); }
+		else if (!strcmp(kind, "dangling")) { if (symlink(tgt, path)) return -1; }
+		free(c);
+		struct mtbl_writer *w = mtbl_writer_init(path, NULL);
+		if (w) { mtbl_writer_destroy(&w); puts("ok"); }
+		else if (!strcmp(kind, "regular")) { size_t n; uint8_t *f = read_file(path, &n); if (!f) return -1; printf("null "); puthex(stdout, f, n); putchar('\n'); free(f); }
+		else if (!strcmp(kind, "dangling")) { struct stat sb; printf("null %s\n", (lstat(path, &sb) == 0 && S_ISLNK(sb.st_mode) && access(tgt, F_OK) != 0) ? "dangling" : "changed"); }
+		else puts("null");
+		unlink(path); unlink(tgt);
+		return 0;
+	}
 	if ((!strcmp(op, "r.openw") || !strcmp(op, "r.openb")) && na >= 3) {
 		struct obj *src = getobj(args[2], op[6] == 'w' ? K_WRITER : K_BLOB); if (!src) return -1;
 		struct obj *o = newobj(args[1], K_READER); if (!o) return -1;
